@@ -335,7 +335,14 @@ pub fn engine_search(b: &Board, limits: Option<SearchLimits>, depth: Option<u8>)
             s.search(&SimpleEvaluator, depth);
         }));
         let (bm, sc, sd) = s.verif_info();
-        (bm.map(|p| p.to_notation()), sc, sd, s.get_nodes(), pr.err().map(|e| eng::panic_text(&e)))
+        // the engine's choice is the move of its bestmove line; the recorded best move of the last
+        // completed iteration is only a fallback for a search that did not get that far
+        let chosen = match s.verif_announced() {
+            Some(Some(p)) => Some(p.to_notation()),
+            Some(None) => Some("0000".to_string()),
+            None => bm.map(|p| p.to_notation()),
+        };
+        (chosen, sc, sd, s.get_nodes(), pr.err().map(|e| eng::panic_text(&e)))
     }));
     match r {
         Ok((best, score, seldepth, nodes, panicked)) => SearchResult {
@@ -657,6 +664,52 @@ pub fn run_c13(tier: &str, seed: u64, shard: usize, of: usize, only_job: Option<
             for k in 0..(if thorough { 16 } else { 6 }) {
                 c13_clock(&b, spec, depth, job, k, &f_log, &mut distinct_cuts);
             }
+        }
+    }
+    // Clock pass on larger trees: the game clock (wtime/btime/increments) cuts through the time
+    // manager, a different path from node budgets, movetime and stop. Bigger trees give the cut
+    // many more places to fall (every budget is not needed here, the clock picks the point).
+    let clock_positions = (if thorough { 640 } else { 96 } + of - 1) / of;
+    let mut done = 0;
+    for (i, spec) in specs.iter().enumerate() {
+        if done >= clock_positions {
+            break;
+        }
+        if i % of != shard || only_job.is_some() {
+            continue;
+        }
+        if started.elapsed().as_secs() > time_cap {
+            out::inconclusive("C13 clock-pass positions not started because the time cap was reached", 1);
+            break;
+        }
+        let Ok((b, _)) = spec.build() else { continue };
+        let depth = 4u8;
+        clear_tt();
+        verif_hooks::tt_record_start();
+        let full = engine_search(&b, None, Some(depth));
+        let f_log = verif_hooks::tt_record_take();
+        if full.panicked.is_some() || full.nodes < 1_500 || full.nodes > 400_000 || f_log.len() < 10 {
+            continue;
+        }
+        done += 1;
+        out::count("C13.clock_pass_positions", 1);
+        for (k, ms) in [1u128, 19, 25, 45, 70, 110, 170].iter().enumerate() {
+            clear_tt();
+            verif_hooks::tt_record_start();
+            let limits = match k % 3 {
+                0 => SearchLimits::new().white_time(Some(*ms)).black_time(Some(*ms)),
+                1 => SearchLimits::new().white_time(Some(*ms)).black_time(Some(*ms)).white_increment(Some(0)).black_increment(Some(0)),
+                _ => SearchLimits::new().white_increment(Some(*ms / 10)).black_increment(Some(*ms / 10)),
+            };
+            let how = format!("game clock {limits:?}");
+            let r = engine_search(&b, Some(limits), Some(depth));
+            let s_log = verif_hooks::tt_record_take();
+            let s_table = tt_snapshot();
+            if r.panicked.is_some() {
+                out::count("C13.interrupted_searches_that_panicked", 1);
+            }
+            out::count("C13.clock_interruptions", 1);
+            c13_compare(spec, depth, 200_000 + i, &how, &s_log, &s_table, &f_log, None, &mut distinct_cuts);
         }
     }
     out::count("C13.nontrivial", distinct_cuts);
